@@ -46,9 +46,15 @@ struct Kernel {
     register_flags: u32,
     register_nr_args: u32,
     fd_drops: u32,
+    /// see verif_stubs::V
+    magic: u64,
 }
 
-static mut KERNEL: Kernel = unsafe { std::mem::zeroed() };
+static mut KERNEL: Kernel = {
+    let mut k: Kernel = unsafe { std::mem::zeroed() };
+    k.magic = 0x5EED_A10C_0000_0018;
+    k
+};
 
 fn kern() -> &'static mut Kernel {
     unsafe { &mut *(&raw mut KERNEL) }
@@ -162,6 +168,7 @@ fn live_maps() -> u32 {
 fn install() {
     let kn = kern();
     *kn = unsafe { std::mem::zeroed() };
+    kn.magic = 0x5EED_A10C_0000_0018;
     k::install(Table {
         io_uring_setup: Some(model_setup),
         mmap: Some(model_mmap),
